@@ -1105,6 +1105,87 @@ func genLevel(repo, out string) {
 		}
 		sb.WriteString(d4 + "\n")
 	}
+	// flushToL0: the name and the position of a flushed table
+	{
+		f6 := findFunc(p, "levelManager", "flushToL0")
+		lit := "tableHandle{levelIdx: lm.maxLevelIdx(0) + 1, filter: *bf, dataBlockIndex: dataBlockIndex}"
+		wt := "lm.writeTable(lm.fileName(0, th.levelIdx), tableBytes)"
+		sp := transSpec{
+			leanName: "flushToL0",
+			binders:  "(noLevel : Bool) (newIdx : Nat) (writeFails : Bool) (ev : List (String × Nat))",
+			retType:  "Bool × List (String × Nat)",
+			exprMap:  map[string]string{"len(lm.levels) == 0": "noLevel", wt: "WT"},
+			state:    []string{"ev"}, stateLn: []string{"ev"}, evVar: "ev", stateTy: []string{"List (String × Nat)"},
+			effects: map[string]string{
+				"lm.mu.Lock()": "lm.mu.Lock|0",
+				"lm.levels = append(lm.levels, list.New())": "new level|0",
+				"filter.Build(kvs)":                         "filter.Build(all entries)|0",
+				"table.Build(kvs, lm.dataBlockSize, 0)":     "table.Build(all entries)|0",
+				lit:                                         "name := maxLevelIdx(L0)+1|newIdx",
+				"lm.levels[0].PushBack(th)":                 "PushBack L0|th",
+			},
+			binds: map[string][][2]string{
+				"filter.Build(kvs)":                     {{"bf", "()"}},
+				"table.Build(kvs, lm.dataBlockSize, 0)": {{"dataBlockIndex", "()"}, {"tableBytes", "()"}},
+				lit:                                     {{"th", "newIdx"}},
+			},
+			skipStmt: func(st ast.Stmt) bool { return goStr(st) == "defer lm.mu.Unlock()" },
+			ret: func(vals []string, st []string) string {
+				if vals[0] == "WT" {
+					return "(!writeFails, ev ++ [(\"writeTable L0\", th)])"
+				}
+				return "(false, ev)"
+			},
+			fallOff:  func(st []string) string { return "(true, ev)" },
+			panicVal: "(false, ev)",
+			skipCall: func(c *ast.CallExpr) bool { return strings.HasPrefix(goStr(c.Fun), "vhook.") },
+		}
+		d6 := ""
+		e6 := fmt.Errorf("levelManager.flushToL0 not found")
+		if f6 != nil {
+			d6, e6 = translateFunc(f6, sp)
+		}
+		if e6 != nil {
+			d6 = fmt.Sprintf("/-- UNTRANSLATABLE: %s -/\ndef flushToL0 : Unit := ()\n", strings.ReplaceAll(e6.Error(), "-/", "- /"))
+		}
+		sb.WriteString(d6 + "\n")
+	}
+	// writeTable: how a table file is published
+	{
+		f5 := findFunc(p, "levelManager", "writeTable")
+		sp := transSpec{
+			leanName: "writeTable",
+			binders:  "(createFails writeFails syncFails closeFails renameFails : Bool) (ev : List String)",
+			retType:  "Bool × List String",
+			exprMap:  map[string]string{"name + _tmpSuffix": "()", "err != nil": "err", "os.Rename(tmp, name)": "RENAME"},
+			state:    []string{"ev"}, stateLn: []string{"ev"}, evVar: "ev",
+			effects: map[string]string{"os.OpenFile(tmp, os.O_CREATE|os.O_RDWR|os.O_TRUNC, 0600)": "create tmp", "fd.Write(tableBytes)": "write tmp",
+				"fd.Sync()": "fsync tmp", "fd.Close()": "close tmp", "_ = fd.Close()": "close tmp (after an error)"},
+			binds: map[string][][2]string{"os.OpenFile(tmp, os.O_CREATE|os.O_RDWR|os.O_TRUNC, 0600)": {{"fd", "()"}, {"err", "createFails"}},
+				"fd.Write(tableBytes)": {{"err", "writeFails"}}, "fd.Sync()": {{"err", "syncFails"}}, "fd.Close()": {{"err", "closeFails"}}},
+			ret: func(vals []string, st []string) string {
+				if vals[0] == "RENAME" {
+					return "(!renameFails, ev ++ [\"rename tmp -> name\"])"
+				}
+				return "(false, ev)"
+			},
+			fallOff:  func(st []string) string { return "(true, ev)" },
+			panicVal: "(false, ev)",
+			skipCall: func(c *ast.CallExpr) bool {
+				s := goStr(c.Fun)
+				return strings.HasPrefix(s, "vhook.") || strings.Contains(s, ".logger.")
+			},
+		}
+		d5 := ""
+		e5 := fmt.Errorf("levelManager.writeTable not found")
+		if f5 != nil {
+			d5, e5 = translateFunc(f5, sp)
+		}
+		if e5 != nil {
+			d5 = fmt.Sprintf("/-- UNTRANSLATABLE: %s -/\ndef writeTable : Unit := ()\n", strings.ReplaceAll(e5.Error(), "-/", "- /"))
+		}
+		sb.WriteString(d5 + "\n")
+	}
 	sb.WriteString("end GenLevel\n")
 	if err := os.WriteFile(out, []byte(sb.String()), 0644); err != nil {
 		fatal(err)
